@@ -51,7 +51,11 @@ for i in sorted(os.listdir(outdir)):
                            "no_longer_checks": [b.get("what") for b in r.get("no_longer_checks", [])][:4]})
     detected = rc_chk == 1 and bool(viol)
     print("   check rc=%d detected=%s %s" % (rc_chk, detected, [ (x['key'] or x['no_longer_checks']) for x in detail][:3]), flush=True)
-    sd = "/verif/seeded/%s-%s" % (prop, i)
+    k = 1
+    while os.path.exists("/verif/seeded/%s-%d" % (prop, k)):
+        k += 1
+    sd = "/verif/seeded/%s-%d" % (prop, k)
+    print("   stored as", sd, flush=True)
     os.makedirs(sd, exist_ok=True)
     for f in ("patch.diff", "demo_test.go"):
         shutil.copy(os.path.join(d, f), os.path.join(sd, f))
